@@ -1493,5 +1493,40 @@ def stated_preconditions(body, facts):
                         continue
                     if rel not in out:
                         out.append(rel)
+    # a checking helper (`self.debug_assert_kind(KIND_VEC)`, `debug_check_pos(pos)`): a crate function that consists of nothing
+    # but debug assertions, called unconditionally - its stated preconditions, over the actual arguments, are the caller's
+    body._cache[key] = out
+    returns = [i for i, b_ in enumerate(body.blocks) if b_["term"]["k"] == "return" and not b_["cleanup"]]
+    eb = None
+    for bi, t in body.calls():
+        if body.blocks[bi]["cleanup"] or in_debug_region(body, bi) or not all(cfg.dominates(bi, r) for r in returns):
+            continue
+        fn = callee(t)
+        r = (fn.get("res") or {}) if fn else {}
+        if not r.get("local") or r.get("did") is None:
+            continue
+        cb = facts.by_did.get(r["did"])
+        if cb is None or cb.did == body.did or cb.kind not in ("fn", "assoc_fn") or has_effects(cb) or not debug_regions(cb):
+            continue
+        regs = set()
+        for _, reg in debug_regions(cb):
+            regs |= reg
+        # outside its debug regions the helper only branches on the debug constant and returns
+        plain = [i for i, b_ in enumerate(cb.blocks) if i not in regs and not b_["cleanup"]]
+        if any(cb.blocks[i]["term"]["k"] == "call" for i in plain):
+            continue
+        sub = stated_preconditions(cb, facts)
+        if not sub:
+            continue
+        if eb is None:
+            eb = ExprBuilder(body, facts, inline=True)
+        args = tuple(eb.operand(a, (bi, len(body.blocks[bi]["stmts"]))) for a in t["args"])
+        for rel in sub:
+            rr = tuple(canon(subst_params(x, args)) if isinstance(x, tuple) else x for x in rel)
+            ex = [rr[1]] + ([rr[2]] if rr[0] != "truth" else [])
+            if any(contains(x, ("unknown", "phi", "icall", "ucall")) for x in ex):
+                continue
+            if rr not in out:
+                out.append(rr)
     body._cache[key] = out
     return out
